@@ -3,7 +3,8 @@
   with `SubstArgs`, src/exo/core/LoopIR.py:1333-1400) on `ExoModel.Syntax`, and the syntactic
   machinery of the `replace` validator (property C05):
 
-  * `eqE`            structural equality of expressions (the syntax has no derived `DecidableEq`)
+  * `eqE`, `eqS`, `eqP` structural equality of expressions, statements, procedures (the syntax has
+                     no derived `DecidableEq`)
   * `lin`, `lfEq`    linear normal form of index expressions: sums are flattened, constants folded,
                      constant factors distributed, equal atoms merged, terms compared as multisets.
                      No atom is ever dropped (`0 * i` keeps the atom `i` with coefficient 0), so the
@@ -13,7 +14,7 @@
   * `Target`, `Subst` what a name of the callee stands for on the caller's side: a control
                      expression, a caller buffer, or a window `y[lo:hi, p, …]` of a caller buffer
   * `substC`         substitution into control expressions (`SubstArgs.map_e`)
-  * `matchC/D/V/S/L` the simultaneous walk over (callee statement, caller statement): the callee
+  * `matchC/D/V/Args/S/L` the simultaneous walk over (callee statement, caller statement): the callee
                      side is substituted on the fly, index expressions are compared with `eqC`,
                      bound names of the callee (`for`, `alloc`, window statements) are mapped to the
                      names the caller's block uses — this is the comparison "up to alpha": no
